@@ -54,3 +54,21 @@ Proof.
   - destruct H1 as [->|H1]; [now left|now right].
   - destruct Hx as [<-|Hx]; [assumption|auto].
 Qed.
+
+Lemma running_state : forall c fs f, fs <> [] ->
+  counter (map f_umi (fs ++ [f])) = counter_add (f_umi f) (counter (map f_umi fs)) /\
+  site_of (fs ++ [f]) = site_step (site_of fs) f /\
+  start_of (fs ++ [f]) = Z.min (f_site f) (start_of fs) /\ end_of (fs ++ [f]) = Z.max (f_end f) (end_of fs) /\
+  strand_of (fs ++ [f]) = (if f_strand f =? 2 then strand_of fs else f_strand f) /\
+  cell_of (fs ++ [f]) = cell_of fs /\ chrom_of (fs ++ [f]) = f_contig f /\ hash_of c (fs ++ [f]) = key c f.
+Proof.
+  intros c fs f H. rewrite map_app. cbn [map].
+  exact (conj (counter_snoc _ _) (conj (site_of_snoc _ _ H) (conj (start_of_snoc _ _ H) (conj (end_of_snoc _ _ H)
+        (conj (strand_of_snoc _ _) (conj (cell_of_snoc _ _ H) (conj (chrom_of_snoc _ _) (hash_of_snoc _ _ _)))))))).
+Qed.
+
+(* the concrete library of the non-vacuity example in Props/C06.v *)
+Definition ex_frag (id strand : Z) (umi : list Z) (dup : bool) : frag :=
+  {| f_id := id; f_cell := 0; f_strand := strand; f_contig := 0; f_site := 1000; f_end := 0; f_umi := umi;
+     f_valid := true; f_dup := dup |}.
+Definition ex_cfg : cfg := {| c_cls := 1; c_d := 1; c_r := 0; c_cap := None; c_yinv := true; c_yover := true; c_fixed := true |}.
